@@ -65,6 +65,17 @@ class EKey(Boom, KeyError):
     """... and one of the LookupError family."""
 
 
+class ECancel(asyncio.CancelledError):
+    """The node body itself ends with CancelledError although nobody cancelled the run (it awaited something of
+    its own that was cancelled): a BaseException outcome of the node like any other."""
+
+    def __init__(self, node=None, attempt=None, run=None):
+        super().__init__(node, attempt, run)
+        self.node = node
+        self.attempt = attempt
+        self.run = run
+
+
 class Fatal(BaseException):
     def __init__(self, node=None, attempt=None, run=None):
         super().__init__(node, attempt, run)
@@ -81,7 +92,7 @@ class AlreadySaved(Exception):
     pass
 
 
-EXC = {'E1': E1, 'E2': E2, 'E1Sub': E1Sub, 'EOther': EOther, 'EFalsy': EFalsy, 'ERt': ERt, 'EKey': EKey, 'Fatal': Fatal,
+EXC = {'E1': E1, 'E2': E2, 'E1Sub': E1Sub, 'EOther': EOther, 'EFalsy': EFalsy, 'ERt': ERt, 'EKey': EKey, 'Fatal': Fatal, 'ECancel': ECancel,
        'Exception': Exception, 'BaseException': BaseException}
 
 RUN = contextvars.ContextVar('rv_run', default=None)
